@@ -69,6 +69,10 @@ func (p *program) addInit(hint string, t *ref.T) string {
 	p.Inits = append(p.Inits, mon.GInit{Name: name, T: t, Raw: p.r.Bool()})
 	p.Values[name] = t
 	p.BatchAxis[name] = -1
+	// a weight can also be the data operand of a later node (Transpose / Reshape / Relu ... of an initializer)
+	if t.DT == ref.F32 && p.r.Chance(0.25) {
+		p.Order = append(p.Order, name)
+	}
 	return name
 }
 
